@@ -108,10 +108,10 @@ theorem raisePlace_q (r : Except PyErr Bool) : KeepsQ (raisePlace r) := by
   cases r with
   | ok b => mvcgen
   | error e => cases e <;> mvcgen
-theorem advanceClock_q (dt : Int) : KeepsQ (advanceClock dt) := by
+theorem advanceClock_q (dt : Int) (hdt : 0 ≤ dt) : KeepsQ (advanceClock dt) := by
   mvcgen [advanceClock]
   rename_i s h _
-  exact QInv.clock s dt h
+  exact QInv.clock s dt h hdt
 
 attribute [local spec] liftTape_q getGraph_q setGraph_q raiseTask_q addEvent_q reheapify_q
   removeEvent_q editEvent_q findEvent_q nextOfType_q placedTasks_q getPool_q setPool_q raiseOutcome_q
